@@ -116,6 +116,22 @@ def run(ctx):
     timeouts = sum(1 for x in real if x == "timeout")
     diffs = ctx.diff_streams("L-fn attr/globalq/specific", lines, real, model, ignore=lambda l, rr, m: rr == "timeout")
     ctx.cov["layers"]["L-fn attr/globalq/specific"].update({"assert_children": nsa, "child_timeouts": timeouts})
+    # the same observations from a position-dependent executable (-fno-pie -no-pie): there DISPATCH_QUEUE_CONCURRENT is a COPY-relocated
+    # duplicate of the table's first entry in the executable's own .bss, which the library has to recognise by its contents
+    import os
+    from common import cc_harness, SCRATCH, VERIF
+    hn = cc_harness([os.path.join(VERIF, "harness", "lfn.c")], os.path.join(SCRATCH, "bin", "hooked", "lfn_nopie"), ctx.build("hooked"), "hooked",
+                    ["-DLFN_NOPIE", "-fno-pie", "-no-pie"])
+    nl = ["AI 0", "AO 0 0", "AO 0 1"] + ["AF 0 %d" % f for f in range(3)] + ["AQ 0 %d %d" % (q, rr_) for q in range(7) for rr_ in range(16)] + ["QC 0"]
+    # compositions on top of it, in both orders
+    nreal, _, _ = run_lines(hn, ["NP"] + nl, timeout=120)
+    nmodel, _, _ = run_lines(drv, nl)
+    copied = nreal[:1] == ["1"]
+    ctx.cov["layers"]["L-fn attr/globalq/specific"]["non_pie_copy_relocated"] = copied
+    nd = ctx.diff_streams("L-fn attr from a position-dependent executable", nl, nreal[1:], nmodel)
+    for l, rr, m in nd[:2]:
+        ctx.violation("attribute built on DISPATCH_QUEUE_CONCURRENT in a position-dependent executable (the constant is a copy of the table entry outside the table): real library answered `%s`, the property requires `%s` for `%s`" % (rr, m, l),
+                      {"line": l, "real": rr, "expected": m, "nopie": True}, signature="c18:nopie:" + l.split()[0])
     for l, rr, m in diffs[:4]:
         kind = l.split()[0]
         # the model is the property's statement for these observations: a difference is a failing input
@@ -126,6 +142,10 @@ def run(ctx):
 
 def replay(ctx, obj):
     h = ctx.harness("lfn")
+    if obj["replay"].get("nopie"):
+        import os
+        from common import cc_harness, SCRATCH, VERIF
+        h = cc_harness([os.path.join(VERIF, "harness", "lfn.c")], os.path.join(SCRATCH, "bin", "hooked", "lfn_nopie"), ctx.build("hooked"), "hooked", ["-DLFN_NOPIE", "-fno-pie", "-no-pie"])
     out, _, _ = run_lines(h, [obj["replay"]["line"]])
     print("replay `%s` -> %s (expected %s)" % (obj["replay"]["line"], out[0], obj["replay"].get("expected")))
     return 0 if out[0] == obj["replay"].get("expected") else 1
